@@ -517,12 +517,70 @@ class SymStr:
             return [SymStr.of(x) for x in c.split(sep, maxsplit)]
         if sep is not None:
             sepc = SymStr.of(sep).const()
-            if sepc is None or len(sepc) != 1 or maxsplit != -1:
-                raise Unsupported('split(sep) with a non single-character separator')
+            if sepc is None or len(sepc) == 0:
+                raise Unsupported('split(symbolic separator)')
+            if maxsplit is not None and not isinstance(maxsplit, int):
+                raise Unsupported('split(symbolic maxsplit)')
+            if maxsplit >= 0 or len(sepc) != 1:
+                # left to right, one fork per cut ("is there another separator?")
+                out, rest = [], self
+                k = 0
+                while maxsplit < 0 or k < maxsplit:
+                    i = rest.find(sepc)
+                    if not (i >= 0):
+                        break
+                    out.append(rest[:i])
+                    rest = rest[i + len(sepc):]
+                    k += 1
+                    if k > self.cap:
+                        break
+                out.append(rest)
+                return out
             return self._split_char(sepc)
         if maxsplit != -1:
             raise Unsupported('split(maxsplit)')
         return self._split_ws()
+
+    def rsplit(self, sep=None, maxsplit=-1):
+        c = self.const()
+        if c is not None and (sep is None or isinstance(sep, str)):
+            return [SymStr.of(x) for x in c.rsplit(sep, maxsplit)]
+        if sep is None:
+            raise Unsupported('rsplit() on whitespace')
+        sepc = SymStr.of(sep).const()
+        if sepc is None or len(sepc) == 0 or not isinstance(maxsplit, int):
+            raise Unsupported('rsplit(symbolic separator / maxsplit)')
+        if maxsplit < 0:
+            return self.split(sepc)
+        out, rest = [], self
+        k = 0
+        while k < maxsplit:
+            i = rest.rfind(sepc)
+            if not (i >= 0):
+                break
+            out.insert(0, rest[i + len(sepc):])
+            rest = rest[:i]
+            k += 1
+        out.insert(0, rest)
+        return out
+
+    def partition(self, sep):
+        sepc = SymStr.of(sep).const()
+        if sepc is None or len(sepc) == 0:
+            raise Unsupported('partition(symbolic separator)')
+        i = self.find(sepc)
+        if i >= 0:
+            return (self[:i], SymStr.of(sepc), self[i + len(sepc):])
+        return (self, SymStr.of(''), SymStr.of(''))
+
+    def rpartition(self, sep):
+        sepc = SymStr.of(sep).const()
+        if sepc is None or len(sepc) == 0:
+            raise Unsupported('rpartition(symbolic separator)')
+        i = self.rfind(sepc)
+        if i >= 0:
+            return (self[:i], SymStr.of(sepc), self[i + len(sepc):])
+        return (SymStr.of(''), SymStr.of(''), self)
 
     def _split_char(self, ch):
         n = self.nz()
